@@ -210,6 +210,22 @@ type c11World struct {
 
 var c11Bases = []string{"https://n0.example", "https://n1.example/iam"}
 
+// base URLs a node is re-configured to by the `rebase` operation (restart with a changed `url` setting)
+var c11AltBases = []string{"https://n0.example:8443", "https://public.example/n", "http://n0.example"}
+
+// c11AltName: URLs under a re-configured base are named ?<base>/<issuer>/<page> (what the model driver prints for a base
+// that is not one of the two node bases)
+func c11AltName(s string) (string, bool) {
+	for _, alt := range c11AltBases {
+		if rest, ok := strings.CutPrefix(s, alt+"/statuslist/"); ok {
+			if i := strings.LastIndex(rest, "/"); i > 0 {
+				return "?" + alt + "/" + rest[:i] + "/" + rest[i+1:], true
+			}
+		}
+	}
+	return "", false
+}
+
 func (w *c11World) render(u c11URL) string {
 	if u.Node < 0 || u.Node >= len(w.nodes) {
 		return u.Raw
@@ -225,6 +241,9 @@ func (w *c11World) render(u c11URL) string {
 
 // name is the canonical short name of a URL: n<node>/<issuer>/<page> or raw:<url>
 func (w *c11World) name(s string) string {
+	if n, ok := c11AltName(s); ok {
+		return n
+	}
 	if u, ok := w.urlIndex[s]; ok {
 		return fmt.Sprintf("n%d/%s/%d", u.Node, u.Issuer, u.Page)
 	}
@@ -797,6 +816,31 @@ func (w *c11World) exec(op c11Op) (line string) {
 		w.dlLog = nil
 		err = w.nodes[op.Node].cs.Verify(*cred)
 		return fmt.Sprintf("verify %s dl=[%s]", c11ErrClass(err), strings.Join(w.dlLog, ","))
+	case "rebase":
+		cs := w.nodes[op.Node].cs
+		old := cs.baseURL
+		cs.baseURL = op.Raw
+		defer func() { cs.baseURL = old }()
+		id, err := did.ParseDID(op.Issuer)
+		if err != nil {
+			return "rebase err:did"
+		}
+		var lines, revs []string
+		var got []*StatusList2021Entry
+		for j := 0; j < op.To; j++ {
+			e, err := cs.Entry(ctx, *id, StatusPurposeRevocation)
+			if err != nil {
+				lines = append(lines, c11ErrClass(err))
+				continue
+			}
+			ok := e.Type == StatusList2021EntryType && e.StatusPurpose == StatusPurposeRevocation && e.ID == e.StatusListCredential+"#"+e.StatusListIndex && e.Validate() == nil
+			lines = append(lines, fmt.Sprintf("%s %s wf=%v", w.name(e.StatusListCredential), e.StatusListIndex, ok))
+			got = append(got, e)
+		}
+		for _, e := range got {
+			revs = append(revs, c11ErrClass(cs.Revoke(ctx, ssi.MustParseURI("did:web:example.com#"+e.StatusListIndex), *e)))
+		}
+		return fmt.Sprintf("rebase entries=[%s] revokes=[%s]", strings.Join(lines, " ; "), strings.Join(revs, " "))
 	case "wire":
 		e := StatusList2021Entry{ID: op.ID, Type: op.Type, StatusPurpose: op.Purpose, StatusListIndex: op.Idx, StatusListCredential: op.Raw}
 		at := "err"
@@ -879,12 +923,15 @@ func (g *c11Gen) observe(op c11Op, line string) {
 			g.revoked = append(g.revoked, c11Entry{list: c11URL{Node: n, Issuer: m[2], Page: p}, idx: i})
 		}
 		fallthrough
-	case "entry", "race", "par":
+	case "entry", "race", "par", "rebase":
 		for _, m := range c11EntryRe.FindAllStringSubmatch(line, -1) {
 			n, _ := strconv.Atoi(m[1])
 			p, _ := strconv.Atoi(m[3])
 			i, _ := strconv.Atoi(m[4])
 			g.entries = append(g.entries, c11Entry{list: c11URL{Node: n, Issuer: m[2], Page: p}, idx: i})
+			if op.Op == "rebase" && !strings.Contains(line, "err:") { // the operation revoked every entry it was handed
+				g.revoked = append(g.revoked, c11Entry{list: c11URL{Node: n, Issuer: m[2], Page: p}, idx: i})
+			}
 		}
 	case "revoke":
 		if line == "revoke ok" {
@@ -1029,6 +1076,16 @@ func (g *c11Gen) next() c11Op {
 		node = 1
 	}
 	switch k := r.Intn(100); {
+	case k >= 18 && k < 20:
+		// the node's public URL changes while an issuer (preferably one that already has a page) keeps issuing
+		is := g.pick(c11Issuers[:3])
+		for _, j := range r.Perm(len(g.entries)) {
+			if g.entries[j].list.Node == node {
+				is = g.entries[j].list.Issuer
+				break
+			}
+		}
+		return c11Op{Op: "rebase", Node: node, Issuer: is, To: 2 + r.Intn(3), Raw: c11AltBases[r.Intn(len(c11AltBases))]}
 	case k < 20:
 		is := g.pick(c11Issuers[:3])
 		if r.Intn(12) == 0 {
